@@ -24,7 +24,7 @@ def main():
     rng = random.Random(cfg["seed"])
     V = ir.Variable
     INTS = [0, 1, 2, -1, 3]
-    FLOATS = [0.0, 1.0, 2.5, -0.0, 0.5, 1.5]
+    FLOATS = [0.0, 1.0, 2.5, -0.0, 0.5, 1.5, 0.1, 3.0, 0.7]
 
     def int_e(d):
         c = rng.random()
@@ -198,6 +198,31 @@ def main():
     curated.append(ir.Branch(ir.LessThan(ir.ArrayIndex(V("p"), V("xi")), ir.IntegerLiteral(0)), ir.Block([]), ir.Block([])))
     curated.append(ir.Assignment(V("yf"), ir.Multiply(ir.Multiply(V("xi"), ir.FloatLiteral(1.0)), V("yi"))))
     curated.append(ir.Assignment(V("yf"), ir.Subtract(ir.IntegerLiteral(0), V("xf"))))
+    # nested literals whose combination is inexact in binary64 (any re-association / constant merging rule changes the
+    # rounding): c1 op (c2 op x), (x op c2) op c1, mixed + and *, int and float literals
+    nd = [ir.FloatLiteral(0.1), ir.FloatLiteral(3.0), ir.FloatLiteral(0.7), ir.IntegerLiteral(3), ir.FloatLiteral(-1.0), ir.FloatLiteral(1e16)]
+    for c1 in nd:
+        for c2 in nd:
+            if c1 is c2:
+                continue
+            for x in (V("xf"), V("yf"), ir.ArrayIndex(V("q"), ir.IntegerLiteral(2))):
+                for op1 in (ir.Multiply, ir.Add, ir.Subtract):
+                    for op2 in (ir.Multiply, ir.Add):
+                        if rng.random() < 0.5:
+                            continue
+                        for e in (op1(c1, op2(c2, x)), op1(op2(x, c2), c1), op1(c1, op2(x, c2))):
+                            curated.append(ir.Assignment(ir.ArrayIndex(V("q"), ir.IntegerLiteral(0)), e))
+    # counting loops entered above / at / below their bound, counter read afterwards (a closed-form rule must keep the
+    # value when the loop does not run)
+    for cnt, bound in ((V("xi"), V("yi")), (V("yi"), V("xi")), (V("xi"), ir.IntegerLiteral(2)), (V("yi"), ir.ArrayIndex(V("p"), ir.IntegerLiteral(0)))):
+        for cmp in (ir.LessThan, ir.LessThanOrEqual, ir.NotEqual):
+            if cmp is ir.NotEqual:
+                continue  # may not terminate
+            loop = ir.Loop(cmp(cnt, bound), ir.Assignment(cnt, ir.Add(cnt, ir.IntegerLiteral(1))))
+            curated.append(ir.Block([loop, ir.Assignment(ir.ArrayIndex(V("p"), ir.IntegerLiteral(1)), cnt)]))
+            curated.append(ir.Block([loop, ir.Return(cnt)]))
+            loop2 = ir.Loop(cmp(cnt, bound), ir.Block([ir.Assignment(cnt, ir.Add(cnt, ir.IntegerLiteral(1)))]))
+            curated.append(ir.Block([loop2, ir.Assignment(V("yf"), ir.Multiply(V("xf"), cnt))]))
 
     trees = list(curated)
     while len(trees) < cfg["n"]:
